@@ -123,6 +123,25 @@ func (c14) Gen(r *sim.Rand, tier string, run uint64) *sim.Scenario {
 		sc.Cfg["e"] = 0
 		sc.Cfg["sp"] = 0x01FF
 	}
+	if kind == 0 && r.Chance(1, 4) {
+		// the caller has program-counter hooks installed (on instruction starts and/or on the
+		// target); they have side effects, so running them more or less often shows
+		pcv := sc.Cfg["pc"]
+		n := r.Range(1, 3)
+		for i := 0; i < n; i++ {
+			k := r.Intn(len(sc.Ops) + 1)
+			off := 0
+			for _, op := range sc.Ops[:k] {
+				off += len(op.B)
+			}
+			a := pcv&0xFF0000 | (pcv+int64(off))&0xFFFF
+			if r.Chance(1, 3) {
+				a = sc.Cfg["target"]
+			}
+			sc.Cfg[fmt.Sprintf("hook%d", i)] = a
+		}
+		sc.Cfg["nhooks"] = int64(n)
+	}
 	if kind == 1 && r.Chance(1, 6) {
 		pcv := sc.Cfg["pc"]
 		sc.Cfg["split"] = (pcv&0xFF0000 | (pcv+int64(r.Range(4, 48)))&0xFFFF) &^ 0xF
@@ -193,6 +212,7 @@ func c14sys(sc *sim.Scenario, env *sim.Env) *sim.Violation {
 		return &sim.Violation{Oracle: "HARNESS_PANIC", Msg: err.Error()}
 	}
 	loadSystem(smA, sc)
+	c14hooks(smA, sc, st)
 	w, ss, rc := sinkFor(env, sc)
 	smA.S.Logger = w
 	var retA bool
@@ -204,6 +224,7 @@ func c14sys(sc *sim.Scenario, env *sim.Env) *sim.Violation {
 		return &sim.Violation{Oracle: "HARNESS_PANIC", Msg: err.Error()}
 	}
 	loadSystem(smB, sc)
+	c14hooks(smB, sc, nil)
 	var retB bool
 	pB, pvB := sim.RecoverLib(func() { retB = smB.S.RunUntil(target, budget) })
 	regsB := cpuA{&smB.S.CPU}.Regs()
@@ -252,6 +273,7 @@ func c14sys(sc *sim.Scenario, env *sim.Env) *sim.Violation {
 		return &sim.Violation{Oracle: "HARNESS_PANIC", Msg: err.Error()}
 	}
 	loadSystem(smC, sc)
+	c14hooks(smC, sc, nil)
 	cpu := cpuA{&smC.S.CPU}
 	var recs []preStep
 	endedOnTarget := false
@@ -308,6 +330,32 @@ func c14sys(sc *sim.Scenario, env *sim.Env) *sim.Violation {
 		}
 	}
 	return checkLines(lines, recs, st)
+}
+
+// c14hooks installs the scenario's program-counter hooks (or none) on a pooled System. Each
+// hook bumps a cell at the top of WRAM page $1F: a traced run that fires a hook more or less
+// often than an untraced one leaves different memory.
+func c14hooks(sm *SysMachine, sc *sim.Scenario, st *sim.Stats) {
+	sm.S.CPU.OnPC = nil
+	n := int(sc.C("nhooks"))
+	if n <= 0 {
+		return
+	}
+	if n > 3 {
+		n = 3
+	}
+	hooks := map[uint32]func(){}
+	s := sm.S
+	for i := 0; i < n; i++ {
+		cell := 0x1FF0 + i
+		hooks[uint32(sc.C(fmt.Sprintf("hook%d", i)))&0xFFFFFF] = func() {
+			s.WRAM[cell]++
+			if st != nil {
+				st.Probe("pc_hook_fired_in_traced_run")
+			}
+		}
+	}
+	s.CPU.OnPC = hooks
 }
 
 func splitLines(b []byte) []string {
